@@ -16,7 +16,7 @@ CHECKS = {
          "Trusted: refnum. NaN and signed zero under eqv?/max/min are not judged.",
          "DESIGN.md §5 C10"),
  "C16": ("random value trees built in Rust -> Display -> (quote TEXT) -> structural comparison; shape clauses; injectivity on pairs; bulk sweep of binary32 (thorough: every finite value)",
-         "Exploration: 20k (thorough 300k) value trees round-tripped through the real printer and reader and compared in value and exactness, composition of the text checked against the shape rules; every 2048th finite binary32 in quick, all 4.28e9 finite binary32 values in thorough (exhaustive for the real clause).",
+         "Exploration: 50k (thorough 300k) value trees, 600 (thorough 5000) batches displayed through the built binary, round-tripped through the real printer and reader and compared in value and exactness, composition of the text checked against the shape rules; every 2048th finite binary32 in quick, all 4.28e9 finite binary32 values in thorough (exhaustive for the real clause).",
          "Trusted: the SVal snapshot and its equivalence (numbers by value+exactness). Strings, non-finite reals and symbols needing bars are outside the property.",
          "DESIGN.md §5 C16"),
  "C01": ("type-directed random program generation (proptest choice sequences) against a reference evaluator (value + tick trace per form, 4 operand orders) + metamorphic equivalent spellings",
@@ -24,55 +24,55 @@ CHECKS = {
          "Trusted: refeval.rs (reference evaluator with unit tests from R7RS examples), the generator's typing discipline. Programs whose integers leave i32 are outside the class (counted).",
          "DESIGN.md §5 C01"),
  "C02": ("generated loop programs (loop shape x composition of tail contexts x N) with a host probe sampling the real machine stack address and the thread's live heap at every iteration; closed-form result oracle",
-         "Exploration with physical measurement: every shape x every single context, every depth-2 composition (quick: self shape; thorough: all 7 shapes), sampled depth-3; stack growth between the first eighth and the second half must stay below 2 KiB and live heap growth below 1 byte/iteration for N=4000 (thorough 40000).",
-         "Trusted: the probe (address of a local in a native procedure, counting global allocator per thread). Measured on this build only. Known finding: apply in tail position is not a tail call.",
+         "Exploration with physical measurement: every shape x every single context, every depth-2 composition (quick: self shape; thorough: all 16 shapes), sampled depth-3, over 19 tail contexts; stack growth between the first eighth and the second half must stay below 2 KiB and live heap growth below 1 byte/iteration for N=4000 (thorough 40000).",
+         "Trusted: the probe (address of a local in a native procedure, counting global allocator per thread). Measured on this build only. Known finding (recorded in known_findings.json): a body with an internal procedure definition leaks its frame (heap only; the stack bound is still checked for that shape).",
          "DESIGN.md §5 C02"),
  "C03": ("stateful operation histories (proptest choice sequences interpreted as a state machine) against the store model of the reference evaluator + identity-partition check on Rc addresses",
          "Exploration: thousands of histories of definitions, assignments, closure creations/calls and vector operations with aliasing through variables, arguments, lists, vectors and captured references; every form's value is compared with the store model and the partition of vector-valued variables into identity classes with the model's.",
-         "Trusted: refeval.rs store model. Cycles through vectors are never created.",
+         "Trusted: refeval.rs store model. A vector is stored into itself only in one scripted operation whose reads return acyclic values.",
          "DESIGN.md §5 C03"),
  "C04": ("exhaustive small rule sets x small uses + random rule sets with uses derived from their own patterns and mutated; oracle: reference syntax-rules matcher/instantiator",
-         "Exploration, exhaustive for one-rule sets over a 6-element pattern alphabet (517 patterns x 259 uses), sampled two-rule sets, random larger rule sets; the value of a use must be the reference instantiation of the first matching rule, a use matching no rule must be a MacroMissMatch error.",
+         "Exploration, exhaustive for one-rule sets over a 6-element pattern alphabet (517 patterns x 497 uses incl. dotted ones and literal look-alikes), sampled two-rule sets, random larger rule sets; the value of a use must be the reference instantiation of the first matching rule, a use matching no rule must be a MacroMissMatch error.",
          "Trusted: refmacro.rs (appendix C of DESIGN.md, own unit tests). Class as fixed by the property: final ellipsis, depth 1, >= 1 item per ellipsis.",
          "DESIGN.md §5 C04"),
  "C05": ("exhaustive nesting family (every derived form in every sub-form position of every derived form) + random type-directed programs with ticking sub-forms against the reference evaluator's direct R7RS semantics",
-         "Exploration: 576 exhaustive nestings plus thousands of random programs; value and order/multiplicity of evaluation (tick trace) per form.",
+         "Exploration: 576 exhaustive nestings, exhaustive cond/case clause shapes, 50 special shapes (tail binding forms, keyword symbols as data and as variable names, eqv-selection of case, errors in non-final body forms, curried-call bodies) plus thousands of random programs; value and order/multiplicity of evaluation (tick trace) per form.",
          "Trusted: refeval.rs. Known finding: unhygienic templates capture user variables x/temp/atom-key (attributed by a renaming experiment, avoided by construction in 7/8 of the random cases).",
          "DESIGN.md §5 C05"),
- "C08": ("fault injection: 8 fault kinds x 5 calling contexts x random embeddings into valid random programs, compared form by form with the reference evaluator (error kind, trace up to the fault, later forms)",
-         "Exploration / fault enumeration: every kind x context skeleton with 48 (thorough 400) random embeddings; the faulting form must yield the error kind, keep the effects completed before it, and later forms must evaluate normally.",
+ "C08": ("fault injection: 8 fault kinds x 6 calling contexts (incl. deferred) x random embeddings, plus the same kinds inside procedures of generated user libraries into valid random programs, compared form by form with the reference evaluator (error kind, trace up to the fault, later forms)",
+         "Exploration / fault enumeration: every kind x context skeleton with 160 (thorough 600) random embeddings and 2000 (thorough 10000) user-library cases; the faulting form must yield the error kind, keep the effects completed before it, and later forms must evaluate normally.",
          "Trusted: refeval.rs error semantics; error kinds are matched through the public ErrorData/LogicError variants.",
          "DESIGN.md §5 C08"),
  "C11": ("per-procedure random argument tuples inside the documented domain + exhaustive c[ad]r on all tree shapes of depth <= 3 + random compositions; oracle: reference list library (value, error, tick trace of the procedure argument)",
-         "Exploration: 22 sub-checks (one per procedure family) x 300 (thorough 3000) argument tuples, exhaustive c[ad]r shapes (thorough), compositions; value, error-or-not and the order/multiplicity of calls to the procedure argument.",
-         "Trusted: refeval.rs list primitives (R7RS / minischeme definitions). memq is exercised on atoms only; map/for-each with one list.",
+         "Exploration: 22 sub-checks (one per procedure family) x 500 (thorough 3000) argument tuples, exhaustive c[ad]r shapes (thorough), compositions; value, error-or-not and the order/multiplicity of calls to the procedure argument.",
+         "Trusted: refeval.rs list primitives (R7RS / minischeme definitions). memq is exercised on atoms only; map/for-each with several lists over integer lists.",
          "DESIGN.md §5 C11"),
- "C12": ("exhaustive enumeration of import-set terms (depth <= 2, thorough 3) over a native 4-export library, 2- and 3-set declarations; oracle: import-set algebra model; determinism across fresh threads",
+ "C12": ("exhaustive enumeration of import-set terms (depth <= 2, thorough 3) over a native 4-export library, 2- and 3-set declarations, histories of several declarations; oracle: import-set algebra model; three runs in fresh threads with the identifier lists written in three orders",
          "Exploration, exhaustive up to depth 2 (strided sample in quick when large): every admissible only/except subset, renaming (swaps, chains, prefix-like targets) and prefix; the root frame after the import must hold exactly the model's names and values, identically on three fresh interpreters.",
          "Trusted: the 20-line algebra model; the bare interpreter's root frame is empty before the import.",
          "DESIGN.md §5 C12"),
  "C13": ("random library/program pairs (registered sources and .sld files) against a reference module system (one instance per library, library environment = imports + own definitions); attribution experiment for per-import instantiation",
-         "Exploration: 1500 (thorough 25000) generated library sets with renamed exports, unexported helpers, internal state, cross-library use, and importing programs that collide with, redefine and probe library names and observe state through several import paths.",
+         "Exploration: 10000 (thorough 40000) generated library sets with renamed exports, unexported helpers, internal state, cross-library use, and importing programs that collide with, redefine and probe library names and observe state through several import paths.",
          "Trusted: refeval.rs module model. Exported variables are constants or procedures (mutation of exported bindings is outside the property).",
          "DESIGN.md §5 C13"),
- "C14": ("exhaustive small-scope enumeration of dependency graphs x node statuses x import histories, libraries as files and as registered sources; oracle: graph reachability/cycle model + self-differential against a fresh interpreter; watchdog for termination",
+ "C14": ("exhaustive small-scope enumeration of dependency graphs x node statuses x import histories, libraries as files and as registered sources; oracle: graph reachability/cycle model + self-differential against a fresh interpreter; step/depth budget of hook H1 for termination",
          "Exploration, exhaustive on 1-2 libraries (3 sampled in thorough): every graph, every status assignment, every history of <= 3 attempts; each attempt's outcome class must be admitted by the graph, equal the outcome on a fresh interpreter and terminate; libraries must be found relative to the program directory.",
          "Trusted: the reachability model; temp directories under the system temp dir are created and removed by the run.",
          "DESIGN.md §5 C14"),
  "C15": ("the C08 fault programs rendered with random multi-line layouts whose token/form extents are recorded by the renderer; oracle: reported location inside the failing form / offending token; stray and missing parentheses for syntax locations",
-         "Exploration: 80 kind x context x (with/without derived forms) skeletons with random layouts (LF/CRLF, comments, indentation, preceding forms); every located error is checked against the extent of the failing form and, for unbound/non-procedure faults, of the offending token.",
-         "Trusted: the renderer's cursor arithmetic (same convention as the lexer: column advances per character, LF resets). Known findings: locations taken from bundled macro templates / base.sld.",
+         "Exploration: 96 kind x context x (with/without derived forms) skeletons, repeated-form cases, a third of the programs read from files with random layouts (LF/CRLF, comments, indentation, preceding forms); every located error is checked against the extent of the failing form and, for unbound/non-procedure faults, of the offending token.",
+         "Trusted: the renderer's cursor arithmetic (same convention as the lexer: column advances per character, LF resets). The former findings (locations taken from bundled macro templates / base.sld) are repaired; their recognisers remain as violation signatures.",
          "DESIGN.md §5 C15"),
  "C06": ("random datum trees x random layouts (proptest) with round-trip and metamorphic layout oracle; exhaustive short-string differential of the real lexer against an independent reference tokenizer",
          "Exploration: thousands of datum trees over every supported token class rendered with random inter-token layout must evaluate (quoted) to the tree they came from, two layouts alike; exhaustively, every string up to length 5 (thorough 6) over a 17-character alphabet is lexed by the real lexer and by the reference tokenizer: valid strings must give the same tokens with the same end locations, and no accepted text may have a token split before a non-delimiter.",
          "Trusted: reflex.rs (reference tokenizer written from R7RS 7.1.1 for the supported grammar, own unit tests). Known finding: #t/#f/#\\c are not delimiter-checked (pinned tests assert it).",
          "DESIGN.md §5 C06"),
  "C17": ("generated program files run through the built binary from another working directory; oracle: reference evaluator's output + in-process evaluation of the same text for the diagnostic; non-file arguments",
-         "Exploration: 1500 (thorough 12000) process runs of random displaying programs with an optional injected fault, LF/CRLF, with/without final newline, absolute/relative path, optional own library with a decoy in the working directory; stdout, exit status and the single FILE:LINE:COL MESSAGE diagnostic are checked.",
+         "Exploration: 4000 (thorough 20000) process runs of random displaying programs with an optional injected run-time or syntax fault, comments, LF/CRLF, with/without final newline, absolute/relative path, optional own library with a decoy in the working directory; stdout, exit status and the single FILE:LINE:COL MESSAGE diagnostic are checked.",
          "Trusted: refeval.rs display model for the unambiguous printable subset; the binary is rebuilt from /repo by ./check.",
          "DESIGN.md §5 C17"),
  "C19": ("random program pairs over a shared name pool interleaved over two instances on one thread, extra instances created at random points; self-differential oracle (B alone in a fresh thread)",
-         "Exploration: 2000 (thorough 30000) program pairs with colliding variables, procedures, macro keywords (incl. bundled ones) and a library name registered with different contents per instance; B's per-form outcomes must not depend on A, instance creation must always succeed.",
+         "Exploration: 8000 (thorough 40000) program pairs (a third with scripted openings) with colliding variables, procedures, macro keywords (incl. bundled ones) and a library name registered with different contents per instance; B's per-form outcomes must not depend on A, instance creation must always succeed.",
          "Trusted: nothing beyond the driver (the oracle is the interpreter itself run alone).",
          "DESIGN.md §5 C19"),
  "C18": ("exhaustive strings over a 10-character alphabet against a reference completeness predicate (hook H2); REPL sessions over a pipe with random line splittings (metamorphic) against in-process evaluation",
@@ -81,7 +81,7 @@ CHECKS = {
          "DESIGN.md §5 C18"),
  "C07": ("exhaustive short strings + grammar-guided token soup + token mutation of real programs (proptest choice sequences, shrinking) + file faults; oracle: no panic by call site, interpreter still evaluates (quote ok)",
          "Exploration: every string up to length 4 over a 20-character alphabet, thousands of grammar-guided soups and mutations, unicode noise and unreadable files are evaluated in-process; any panic (identified by file+message) or a broken sanity form is a violation. Search, not proof: texts beyond the explored sizes are not covered.",
-         "Trusted: the panic hook/catch_unwind driver; hook H1 only converts non-termination, deep recursion and huge allocations (outside the claim) into errors. Known findings: exact-integer overflow panics (one root cause).",
+         "Trusted: the panic hook/catch_unwind driver; hook H1 only converts non-termination, deep recursion and huge allocations (outside the claim) into errors. All panics found are repaired (DESIGN.md 12.1).",
          "DESIGN.md §5 C07"),
 }
 
